@@ -2,7 +2,6 @@ package h3
 
 import (
 	"fmt"
-	"testing/synctest"
 	"time"
 
 	"github.com/andydunstall/piko/server/cluster"
@@ -22,6 +21,8 @@ func genLoss(rng *simkit.Rand, tier string, idx int) *simkit.Case {
 	c.Cfg["apps"] = int64(rng.Range(0, 6))
 	c.Cfg["pkt_drop"] = int64([]int{0, 0, 50}[rng.Intn(3)])
 	c.Cfg["yield_den"] = []int64{0, 64, 8, 2}[rng.Intn(4)]
+	c.Cfg["stall_den"] = []int64{0, 0, 200}[rng.Intn(3)] // execution-time fault in a third of the runs
+	c.Cfg["stall_max_us"] = 500
 	c.Cfg["net_quantum_us"] = []int64{0, 1000}[rng.Intn(2)]
 	c.Cfg["stream_delay_us"] = []int64{0, 200, 2000}[rng.Intn(3)]
 	c.Cfg["grace_ms"] = int64([]int{2000, 10000}[rng.Intn(2)])
@@ -31,6 +32,10 @@ func genLoss(rng *simkit.Rand, tier string, idx int) *simkit.Case {
 			simkit.Op{K: "traffic", A: rng.Intn(1 << 16), B: rng.Intn(1 << 16), C: rng.Intn(6)},
 			simkit.Op{K: "lose", A: rng.Intn(1 << 16), B: rng.Intn(3), C: rng.Intn(1 << 16), D: int64(time.Duration(rng.Range(0, 300)) * time.Millisecond)},
 			simkit.Op{K: "wait", D: int64(time.Duration(rng.Range(0, 5000)) * time.Millisecond)})
+		if rng.Intn(3) == 0 {
+			// rolling restart: a new instance comes up at the address of the node that left
+			c.Script = append(c.Script, simkit.Op{K: "restart", D: int64(time.Duration(rng.Range(0, 3000)) * time.Millisecond)})
+		}
 	}
 	return c
 }
@@ -111,6 +116,8 @@ func execLoss(run *simkit.Run) {
 			w.lose(live[op.A%len(live)], op.B, grace)
 		case "wait":
 			time.Sleep(time.Duration(op.D))
+		case "restart":
+			w.restart(interval, grace, time.Duration(op.D))
 		}
 	}
 	w.wg.Wait()
@@ -168,7 +175,7 @@ func (w *cluster3) lose(n *node, mode int, grace time.Duration) {
 		if took > grace+500*time.Millisecond {
 			run.Fail("C18.grace", "shutdown-overran-grace-period", "%s took %v to shut down, grace period %v", n.id, took, grace)
 		}
-		synctest.Wait()
+		w.quiesce()
 		if own := n.srv.ClusterState().LocalNode().Endpoints; len(own) != 0 {
 			run.Fail("C18.withdraw", "still-advertising-after-shutdown", "%s has shut down but still advertises [%s]", n.id, epString(own))
 		}
@@ -204,7 +211,7 @@ func (w *cluster3) lose(n *node, mode int, grace time.Duration) {
 	okAll := false
 	for i := 0; i < bound/5; i++ {
 		time.Sleep(5 * w.intv)
-		synctest.Wait()
+		w.quiesce()
 		okAll = true
 		for _, o := range w.liveNodes() {
 			if t := w.tableOf(o)[n.id]; t != nil && t.Status == cluster.NodeStatusActive && len(t.Endpoints) > 0 {
@@ -226,7 +233,7 @@ func (w *cluster3) lose(n *node, mode int, grace time.Duration) {
 	deadline := time.Now().Add(detect)
 	reok, why := false, ""
 	for time.Now().Before(deadline) {
-		synctest.Wait()
+		w.quiesce()
 		if reok, why = w.advertisedMatchesApps(); reok {
 			break
 		}
@@ -246,6 +253,50 @@ func (w *cluster3) lose(n *node, mode int, grace time.Duration) {
 		run.Probe("c18.unsettled_after_loss")
 		run.Logf("not settled after loss: %s", swhy)
 	}
+	w.checkServedEverywhere(n, "losing")
+	run.Probe("c18.recovered")
+}
+
+// restart: a new server instance (new node id, as piko generates one per start)
+// comes up at the address of a node that shut down gracefully - a rolling
+// restart. It joins through the survivors; afterwards every serving node,
+// the new one included, serves every endpoint that has an upstream.
+func (w *cluster3) restart(interval, grace, after time.Duration) {
+	run := w.run
+	var old *node
+	for _, n := range w.nodes {
+		if n.stopped && !n.killed && !n.replaced {
+			old = n
+		}
+	}
+	if old == nil || len(w.liveNodes()) == 0 {
+		return
+	}
+	time.Sleep(after)
+	old.replaced = true
+	nn := w.startNode(nodeOpts{interval: interval, grace: grace, host: old.host})
+	if run.Stop() || !nn.alive {
+		return
+	}
+	run.Logf("%s started at the address of %s (%s)", nn.id, old.id, old.host)
+	run.Probe("c18.restarted_at_same_address")
+	if settled, why := w.waitSettled(600, true); !settled {
+		run.Probe("c18.unsettled_after_restart")
+		run.Logf("not settled after restart: %s", why)
+	}
+	w.checkServedEverywhere(old, "replacing")
+	// the instance that left stays departed: nobody lists it as an active advertiser again
+	for _, o := range w.liveNodes() {
+		if t := w.tableOf(o)[old.id]; t != nil && t.Status == cluster.NodeStatusActive {
+			run.Fail("C18.notified", "departed-instance-active-again", "%s lists %s, which shut down gracefully and was replaced at its address by %s, as active", o.id, old.id, nn.id)
+		}
+	}
+}
+
+// checkServedEverywhere: requests for every endpoint that has an upstream
+// succeed from every serving node (a few attempts, ten gossip intervals apart).
+func (w *cluster3) checkServedEverywhere(n *node, what string) {
+	run := w.run
 	for _, entry := range w.liveNodes() {
 		for _, ep := range []string{"e1", "e10", "api"} {
 			if len(w.liveApps(ep)) == 0 {
@@ -274,11 +325,10 @@ func (w *cluster3) lose(n *node, mode int, grace time.Duration) {
 				if sawDead && n.killed {
 					sig = "routed-to-relearnt-dead-node"
 				}
-				run.Fail("C18.recover", sig, "after losing %s, requests for %q via %s still fail (last status %d) although %d upstreams are connected", n.id, ep, entry.id, status, len(w.liveApps(ep)))
+				run.Fail("C18.recover", sig, "after %s %s, requests for %q via %s still fail (last status %d) although %d upstreams are connected", what, n.id, ep, entry.id, status, len(w.liveApps(ep)))
 			}
 		}
 	}
-	run.Probe("c18.recovered")
 }
 
 
